@@ -6,7 +6,7 @@ import (
 	"os"
 )
 
-func osReadFile() ([]byte, error)            { return os.ReadFile(os.Getenv("VERIF_REPLAY")) }
+func osReadFile() ([]byte, error)          { return os.ReadFile(os.Getenv("VERIF_REPLAY")) }
 func jsonUnmarshal(bz []byte, v any) error { return json.Unmarshal(bz, v) }
 
 func sha256Native(b []byte) []byte { h := sha256.Sum256(b); return h[:] }
@@ -19,9 +19,10 @@ type TB interface {
 
 // RunReplay re-executes, natively and against the real ibc-go code, the harness named in the
 // VERIF_REPLAY file with the solver's values, and prints a REPLAY-RESULT line:
-//   reproduced      the recorded obligation fails natively (assertion false / panic for nopanic)
-//   not-reproduced  the harness ran to the end and the obligation held
-//   assume-failed   an assumption does not hold for these values (the model was an abstraction artefact)
+//
+//	reproduced      the recorded obligation fails natively (assertion false / panic for nopanic)
+//	not-reproduced  the harness ran to the end and the obligation held
+//	assume-failed   an assumption does not hold for these values (the model was an abstraction artefact)
 func RunReplay(t TB, harnesses map[string]func()) {
 	load()
 	name := replay.Harness
@@ -71,3 +72,5 @@ func RunReplay(t TB, harnesses map[string]func()) {
 	}
 	t.Logf("REPLAY-RESULT: %s (harness %s, label %q)", status, name, replay.Label)
 }
+
+func replayPath() string { return os.Getenv("VERIF_REPLAY") }
